@@ -49,6 +49,7 @@ type G struct {
 	nchild int
 	extern bool
 	bg     bool // excluded from leak/deadlock accounting (declared background)
+	proc   int  // simulated process id (inherited by children)
 
 	wait     int
 	waitDesc string
@@ -120,6 +121,7 @@ type Sim struct {
 	HB *hbState
 
 	fdPolls int
+	netst   *netState
 }
 
 var cur *Sim
@@ -281,6 +283,9 @@ func (s *Sim) spawn(parent *G, site string, bg bool, f func()) *G {
 		id = parent.ID + "." + strconv.Itoa(parent.nchild)
 	}
 	g := &G{ID: id, park: make(chan struct{}), state: stParked, site: site, bg: bg}
+	if parent != nil {
+		g.proc = parent.proc
+	}
 	g.prio = s.Strat.newPrio(s)
 	s.all = append(s.all, g)
 	s.hbFork(parent, g)
